@@ -318,6 +318,58 @@ fn history(_ctx: &Ctx, case: u64, r: &mut Rng, rep: &mut Report) {
     // 1 history in 3 plays in a repository that is older than keep-delete
     let aged_repo = r.chance(1, 3);
     let mut probe: Option<PruneSpec> = None;
+    // 1 history in 4 starts with the recover scenario played out in full: a handle loads its index, the snapshot is
+    // forgotten and a marking prune runs, the handle then backs the same content up again (deduplicating against packs
+    // that are marked by now), and the next prune has to bring those packs back
+    if r.chance(1, 4) {
+        let cfg_desc = h.cfg.desc.clone();
+        let detail = move |log_desc: &Vec<String>| json!({"config": cfg_desc, "history": log_desc});
+        let res: Result<(), (String, String)> = (|| {
+            let first = h.backup(true).map_err(|e| ("backup-error".to_string(), e))?;
+            let m = h.model.clone();
+            log_desc.push("backup-force".to_string());
+            let handle = h.env.ids().map_err(|e| ("open".to_string(), e))?;
+            log_desc.push("open-handle-A (index loaded)".to_string());
+            let repo = h.env.open().map_err(|e| ("open".to_string(), e))?;
+            repo.delete_snapshots(&[first.into()]).map_err(|e| ("forget-error".to_string(), errstr(&e)))?;
+            let _ = h.snaps.remove(&first);
+            log_desc.push("forget 1 of 1".to_string());
+            let mut spec = PruneSpec::default_safe();
+            spec.max_unused = Limit::Pct(0);
+            let cmd = Cmd::Prune { spec };
+            log_desc.push(cmd.name());
+            let t0 = rustic_core::jiff::Timestamp::now().as_second();
+            match cmd.run(&h.env) {
+                Ok(Ok(())) => {}
+                other => return Err(("prune-error-on-consistent-repository".to_string(), format!("{other:?}"))),
+            }
+            for id in marked_packs(&rk, &h.uni.state(0)).keys() {
+                let _ = h.observed_mark.insert(*id, t0);
+            }
+            h.time += 100;
+            log_desc.push("backup through handle-A (stale index)".to_string());
+            let s = backup_model(&handle, &m, Frag::Whole, &BackupOptions::default().parent_opts(ParentOptions::default().force(true)), snap_at(h.time, "A")).map_err(|e| ("backup-error".to_string(), errstr(&e)))?;
+            let _ = h.snaps.insert(*s.id, m);
+            rep.count("stale_index_backups", 1);
+            let cmd = Cmd::Prune { spec: PruneSpec::default_safe() };
+            log_desc.push(format!("{} (recover)", cmd.name()));
+            match cmd.run(&h.env) {
+                Ok(Ok(())) => {}
+                other => return Err(("recover-prune-failed".to_string(), format!("the prune after a stale-index backup failed: {other:?}"))),
+            }
+            rep.count("recover_scenarios_played", 1);
+            Ok(())
+        })();
+        if let Err((sig, e)) = res {
+            rep.violation(case, sig, e, detail(&log_desc));
+            return;
+        }
+        rep.evaluations += 1;
+        if let Some((sig, d)) = read_oracle(&h, r).into_iter().next() {
+            rep.violation(case, sig, format!("after the recover scenario: {d}"), json!({"config": h.cfg.desc, "history": log_desc}));
+            return;
+        }
+    }
     for step in 0..n {
         let cfg_desc = h.cfg.desc.clone();
         let detail = move |log_desc: &Vec<String>| json!({"config": cfg_desc, "history": log_desc});
